@@ -262,6 +262,9 @@ func (x *g) forwardEntry(sec string, sp spec, credit, prenoteOnly bool) *ach.Ent
 			a.PaymentRelatedInformation = x.dneInfo()
 		default:
 			a.PaymentRelatedInformation = x.text(80, aText)
+			if x.r.Chance(1, 12) {
+				a.PaymentRelatedInformation = "" // the field is optional: eighty blanks on the record
+			}
 		}
 		// Create() renumbers both; they only have to be non-zero for Validate
 		a.SequenceNumber = i + 1
